@@ -1,23 +1,306 @@
 (* C15 — Setting a norm rescales non-zero vectors only; orientation is the unit field.
-   Statements only.  K is an arbitrary field (FLaws K); the length n of a cell enters through its
-   defining equation n*n = sum of squares ("squared form"), so these statements hold for the reals
-   with n = sqrt(..) (the *_R corollaries) and for the executable rational instance with n = qsqrt(..). *)
-From Coq Require Import Qcanon.
-From DF Require Import Prelude FieldK NDArray Region Mesh Norm C15_cell.
+   Statements only.
 
-(* --- the setter on one cell: v' = (t/|v|) v, squared length t^2, parallel to v --- *)
+   Layer 1 (closed under the global context): K is an arbitrary field (FLaws K); the length n of
+   a cell enters through its defining equation n*n = sum of squares ("squared form"), the zero tests
+   of the code are arbitrary Boolean functions constrained only where the statement needs it.
+   Layer 2 (Coq.Reals axioms): K := R, n := sqrt (sum of squares) — the property as worded.
+   Layer 3: the executable instance (Qc, exact partial rational root qsqrt) meets the hypotheses of
+   layer 1, and qsqrt is the real square root where defined (bridge). *)
+From DF Require Import Prelude FieldK NDArray Region Mesh Norm C15_cell C15_qsqrt C15_real C15_exec Check_C15.
+From Coq Require Import Qcanon Reals.
+
+(* ===== layer 1: any field, squared form ===== *)
+
+(* the setter on one cell: v' = (t/|v|) v *)
 Theorem C15_set_scaling : forall (K : FOps), FLaws K -> forall (is0 : K -> bool) (n t : K) (v : list K),
   is0 n = false -> n <> f0 K -> set_cell is0 n t v = map (fmul (fdiv t n)) v.
 Proof. exact set_cell_scaling. Qed.
 Print Assumptions C15_set_scaling.
 
+(* |v'|^2 = t^2 *)
 Theorem C15_set_length_sq : forall (K : FOps), FLaws K -> forall (is0 : K -> bool) (n t : K) (v : list K),
   fmul n n = sumsq K v -> n <> f0 K -> is0 n = false ->
   sumsq K (set_cell is0 n t v) = fmul t t.
 Proof. exact set_cell_sumsq. Qed.
 Print Assumptions C15_set_length_sq.
 
+(* v' parallel to v: every 2x2 minor of (v'; v) vanishes *)
+Theorem C15_set_parallel : forall (K : FOps), FLaws K -> forall (is0 : K -> bool) (n t : K) (v : list K) i j,
+  is0 n = false -> n <> f0 K ->
+  fmul (nth i (set_cell is0 n t v) (f0 K)) (nth j v (f0 K))
+  = fmul (nth j (set_cell is0 n t v) (f0 K)) (nth i v (f0 K)).
+Proof. exact set_cell_parallel. Qed.
+Print Assumptions C15_set_parallel.
+
+(* a zero cell stays zero whatever the target, the computed length and the zero test are *)
 Theorem C15_zero_stays_zero : forall (K : FOps), FLaws K -> forall (is0 : K -> bool) (n t : K) (v : list K),
   Forall (fun x => x = f0 K) v -> set_cell is0 n t v = zeros v.
 Proof. exact set_cell_zero. Qed.
 Print Assumptions C15_zero_stays_zero.
+
+(* target zero ("zero in places") makes the cell zero – which then stays zero *)
+Theorem C15_target_zero : forall (K : FOps), FLaws K -> forall (is0 : K -> bool) (n : K) (v : list K),
+  set_cell is0 n (f0 K) v = zeros v.
+Proof. exact set_cell_target_zero. Qed.
+Print Assumptions C15_target_zero.
+
+(* two assignments in a row: only the direction of the first survives *)
+Theorem C15_set_twice : forall (K : FOps), FLaws K -> forall (is0 : K -> bool) (n t n' t' : K) (v : list K),
+  is0 n = false -> n <> f0 K -> is0 n' = false -> n' <> f0 K ->
+  set_cell is0 n' t' (set_cell is0 n t v) = map (fmul (fmul (fdiv t' n') (fdiv t n))) v.
+Proof. exact set_cell_twice. Qed.
+Print Assumptions C15_set_twice.
+
+(* orientation: unit length (squared) outside the threshold, zero inside *)
+Theorem C15_orientation_unit_sq : forall (K : FOps), FLaws K -> forall (close0 : K -> bool) (n : K) (v : list K),
+  fmul n n = sumsq K v -> n <> f0 K -> close0 n = false ->
+  sumsq K (unit_cell close0 n v) = f1 K.
+Proof. exact unit_cell_sumsq. Qed.
+Print Assumptions C15_orientation_unit_sq.
+
+Theorem C15_orientation_zero : forall (K : FOps) (close0 : K -> bool) (n : K) (v : list K),
+  close0 n = true -> unit_cell close0 n v = zeros v.
+Proof. exact unit_cell_small. Qed.
+Print Assumptions C15_orientation_zero.
+
+(* orientation times norm reproduces the field (outside the threshold; inside it gives zero) *)
+Theorem C15_orientation_times_norm : forall (K : FOps), FLaws K -> forall (close0 : K -> bool) (n : K) (v : list K),
+  close0 n = false -> n <> f0 K -> scale_cell n (unit_cell close0 n v) = v.
+Proof. exact unit_times_norm. Qed.
+Print Assumptions C15_orientation_times_norm.
+
+Theorem C15_orientation_times_norm_below_threshold : forall (K : FOps), FLaws K ->
+  forall (close0 : K -> bool) (n : K) (v : list K),
+  close0 n = true -> scale_cell n (unit_cell close0 n v) = zeros v.
+Proof. exact unit_times_norm_small. Qed.
+Print Assumptions C15_orientation_times_norm_below_threshold.
+
+(* --- field level: metadata and cell-wise action (any K, any length function) --- *)
+Theorem C15_norm_field : forall (K : FOps) (nrm : list K -> K) (f : field K),
+  f_mesh (norm_field nrm f) = f_mesh f /\ f_nvdim (norm_field nrm f) = 1%nat /\
+  f_unit (norm_field nrm f) = f_unit f /\ f_valid (norm_field nrm f) = f_valid f /\
+  f_arr (norm_field nrm f) = map (fun v => [nrm v]) (f_arr f).
+Proof. exact norm_field_meta. Qed.
+Print Assumptions C15_norm_field.
+
+Theorem C15_orientation_field : forall (K : FOps) (nrm : list K -> K) (close0 : K -> bool) (f : field K),
+  f_mesh (orientation nrm close0 f) = f_mesh f /\ f_nvdim (orientation nrm close0 f) = f_nvdim f /\
+  f_valid (orientation nrm close0 f) = f_valid f /\
+  f_arr (orientation nrm close0 f) = map (fun v => unit_cell close0 (nrm v) v) (f_arr f).
+Proof. exact orientation_meta. Qed.
+Print Assumptions C15_orientation_field.
+
+Theorem C15_set_norm_keeps_metadata : forall (K : FOps) (nrm : list K -> K) (is0 : K -> bool) (f f' : field K) s,
+  set_norm nrm is0 f s = OK f' ->
+  exists ts, spec_values (f_mesh f) s = OK ts /\
+    f_mesh f' = f_mesh f /\ f_nvdim f' = f_nvdim f /\ f_unit f' = f_unit f /\ f_valid f' = f_valid f /\
+    f_arr f' = map2 (fun v t => set_cell is0 (nrm v) t v) (f_arr f) ts.
+Proof. exact set_norm_ok. Qed.
+Print Assumptions C15_set_norm_keeps_metadata.
+
+Theorem C15_set_norm_cellwise : forall (K : FOps) (nrm : list K -> K) (is0 : K -> bool) (f f' : field K) s ts j,
+  set_norm nrm is0 f s = OK f' -> spec_values (f_mesh f) s = OK ts ->
+  (j < length (f_arr f))%nat -> (j < length ts)%nat ->
+  nth j (f_arr f') [] = set_cell is0 (nrm (nth j (f_arr f) [])) (nth j ts (f0 K)) (nth j (f_arr f) []).
+Proof. exact set_norm_cellwise. Qed.
+Print Assumptions C15_set_norm_cellwise.
+
+(* the three kinds of norm specification: constant, per-cell array, function of the cell centre *)
+Theorem C15_spec_constant : forall (K : FOps) m (t : K) ts j,
+  spec_values m (NConst t) = OK ts -> length ts = ncells m /\ ((j < ncells m)%nat -> nth j ts (f0 K) = t).
+Proof. exact spec_values_const. Qed.
+Print Assumptions C15_spec_constant.
+
+Theorem C15_spec_array : forall (K : FOps) m (l ts : list K),
+  spec_values m (NArr l) = OK ts -> ts = l /\ length l = ncells m.
+Proof. exact spec_values_arr. Qed.
+Print Assumptions C15_spec_array.
+
+Theorem C15_spec_array_wrong_size_rejected : forall (K : FOps) m (l : list K),
+  length l <> ncells m -> spec_values m (NArr l) = Err ValueE.
+Proof. exact spec_values_arr_rejects. Qed.
+Print Assumptions C15_spec_array_wrong_size_rejected.
+
+Theorem C15_spec_function : forall (K : FOps) m (g : list Q -> K) ts j,
+  spec_values m (NFun g) = OK ts ->
+  length ts = length (indices (shape m)) /\
+  ((j < length (indices (shape m)))%nat -> nth j ts (f0 K) = g (centre m (nth j (indices (shape m)) []))).
+Proof. exact spec_values_fun. Qed.
+Print Assumptions C15_spec_function.
+
+(* --- later value updates do not re-apply an earlier norm --- *)
+Theorem C15_not_sticky : forall (K : FOps) (nrm : list K -> K) (is0 close0 : K -> bool) (f f' : field K) os a,
+  run_ops nrm is0 close0 f (os ++ [OUpdate a]) = OK f' -> f_arr f' = a.
+Proof. exact not_sticky. Qed.
+Print Assumptions C15_not_sticky.
+
+Theorem C15_update_forgets_history : forall (K : FOps) (nrm : list K -> K) (is0 close0 : K -> bool)
+  (f g g' : field K) os a,
+  run_ops nrm is0 close0 f os = OK g -> update_values g a = OK g' ->
+  exists f', update_values f a = OK f' /\ f_arr f' = f_arr g'.
+Proof. exact update_forgets_history. Qed.
+Print Assumptions C15_update_forgets_history.
+
+(* --- constructor order: values, then norm, then validity --- *)
+Theorem C15_constructor_order : forall (K : FOps) (nrm : list K -> K) (is0 close0 : K -> bool) m nvdim u a ns vs,
+  nvdim <> 0%nat ->
+  Norm.mk_field nrm is0 close0 m nvdim u a ns vs
+  = run_ops nrm is0 close0 (blank K m nvdim u) (init_ops K a ns vs).
+Proof. exact mk_field_as_ops. Qed.
+Print Assumptions C15_constructor_order.
+
+Theorem C15_constructor_validity_after_norm : forall (K : FOps) (nrm : list K -> K) (is0 close0 : K -> bool)
+  m nvdim u a ns (f : field K),
+  Norm.mk_field nrm is0 close0 m nvdim u a ns VNorm = OK f ->
+  f_valid f = map (fun v => negb (close0 (nrm v))) (f_arr f).
+Proof. exact mk_field_valid_after_norm. Qed.
+Print Assumptions C15_constructor_validity_after_norm.
+
+Theorem C15_constructor_without_norm_verbatim : forall (K : FOps) (nrm : list K -> K) (is0 close0 : K -> bool)
+  m nvdim u a vs (f : field K),
+  Norm.mk_field nrm is0 close0 m nvdim u a None vs = OK f ->
+  f_arr f = a /\ f_mesh f = m /\ f_unit f = u /\ f_nvdim f = nvdim.
+Proof. exact mk_field_values. Qed.
+Print Assumptions C15_constructor_without_norm_verbatim.
+
+(* ===== layer 2: the reals, Euclidean length = sqrt (sum of squares) ===== *)
+Open Scope R_scope.
+
+Theorem C15_length_zero_iff_R : forall v : list R, Rnorm v = 0 <-> Forall (fun x => x = 0) v.
+Proof. exact Rnorm_zero_iff. Qed.
+Print Assumptions C15_length_zero_iff_R.
+
+Theorem C15_scalar_norm_is_abs_R : forall x : R, Rnorm [x] = Rabs x.
+Proof. exact Rnorm_scalar. Qed.
+Print Assumptions C15_scalar_norm_is_abs_R.
+
+(* every cell, every target: zero stays zero; non-zero gets length |t| and v' = (t/|v|) v *)
+Theorem C15_set_length_R : forall (t : R) (v : list R),
+  (Forall (fun x => x = 0) v /\ set_cell (K:=RK) Ris0 (Rnorm v) t v = zeros (K:=RK) v) \/
+  (~ Forall (fun x => x = 0) v /\ Rnorm (set_cell (K:=RK) Ris0 (Rnorm v) t v) = Rabs t /\
+   set_cell (K:=RK) Ris0 (Rnorm v) t v = map (Rmult (t / Rnorm v)) v).
+Proof. exact set_cell_R_total. Qed.
+Print Assumptions C15_set_length_R.
+
+(* direction: positive factor, and the unit vector is unchanged *)
+Theorem C15_set_direction_R : forall (t : R) (v : list R),
+  Rnorm v <> 0 ->
+  set_cell (K:=RK) Ris0 (Rnorm v) t v = map (Rmult (t / Rnorm v)) v /\ (0 < t -> 0 < t / Rnorm v).
+Proof. exact set_direction_R. Qed.
+Print Assumptions C15_set_direction_R.
+
+Theorem C15_set_keeps_unit_vector_R : forall (t : R) (v : list R),
+  0 < t -> Rnorm v <> 0 ->
+  map (fun x => x / Rnorm (set_cell (K:=RK) Ris0 (Rnorm v) t v)) (set_cell (K:=RK) Ris0 (Rnorm v) t v)
+  = map (fun x => x / Rnorm v) v.
+Proof. exact set_keeps_unit_vector. Qed.
+Print Assumptions C15_set_keeps_unit_vector_R.
+
+(* the whole field after `f.norm = s` (constant, array or function), cell j *)
+Theorem C15_set_norm_field_R : forall (f f' : field RK) s ts j,
+  set_norm (K:=RK) Rnorm Ris0 f s = OK f' -> spec_values (f_mesh f) s = OK ts ->
+  (j < length (f_arr f))%nat -> (j < length ts)%nat ->
+  let v := nth j (f_arr f) [] in let v' := nth j (f_arr f') [] in let t := nth j ts 0 in
+  (Forall (fun x => x = 0) v /\ v' = zeros (K:=RK) v) \/
+  (~ Forall (fun x => x = 0) v /\ Rnorm v' = Rabs t /\ v' = map (Rmult (t / Rnorm v)) v).
+Proof. exact set_norm_field_R. Qed.
+Print Assumptions C15_set_norm_field_R.
+
+(* orientation: unit length above the absolute threshold, zero up to it; times norm = field *)
+Theorem C15_orientation_unit_R : forall (atol : R) (v : list R),
+  0 <= atol -> atol < Rnorm v -> Rnorm (unit_cell (K:=RK) (Rclose0 atol) (Rnorm v) v) = 1.
+Proof. exact orientation_unit_R. Qed.
+Print Assumptions C15_orientation_unit_R.
+
+Theorem C15_orientation_zero_R : forall (atol : R) (v : list R),
+  Rnorm v <= atol -> unit_cell (K:=RK) (Rclose0 atol) (Rnorm v) v = zeros (K:=RK) v.
+Proof. exact orientation_zero_R. Qed.
+Print Assumptions C15_orientation_zero_R.
+
+Theorem C15_orientation_times_norm_R : forall (atol : R) (v : list R),
+  0 <= atol -> atol < Rnorm v ->
+  scale_cell (K:=RK) (Rnorm v) (unit_cell (K:=RK) (Rclose0 atol) (Rnorm v) v) = v.
+Proof. exact orientation_times_norm_R. Qed.
+Print Assumptions C15_orientation_times_norm_R.
+
+Theorem C15_orientation_field_R : forall (atol : R) (f : field RK) j,
+  0 <= atol -> (j < length (f_arr f))%nat ->
+  let v := nth j (f_arr f) [] in
+  let o := nth j (f_arr (orientation (K:=RK) Rnorm (Rclose0 atol) f)) [] in
+  (atol < Rnorm v -> Rnorm o = 1 /\ scale_cell (K:=RK) (Rnorm v) o = v) /\
+  (Rnorm v <= atol -> o = zeros (K:=RK) v).
+Proof. exact orientation_field_R. Qed.
+Print Assumptions C15_orientation_field_R.
+
+Close Scope R_scope.
+
+(* ===== layer 3: the exact rational root and the executable instance ===== *)
+Open Scope Q_scope.
+
+Theorem C15_qsqrt_sound : forall x y : Q, qsqrt x = Some y -> y * y == x /\ 0 <= y.
+Proof. exact qsqrt_spec. Qed.
+Print Assumptions C15_qsqrt_sound.
+
+Theorem C15_qsqrt_complete : forall y : Q, 0 <= y -> exists y', qsqrt (y * y) = Some y' /\ y' == y.
+Proof. exact qsqrt_complete. Qed.
+Print Assumptions C15_qsqrt_complete.
+
+Theorem C15_qsqrt_is_sqrt : forall x y : Q, qsqrt x = Some y -> Q2R y = sqrt (Q2R x).
+Proof. exact qsqrt_bridge. Qed.
+Print Assumptions C15_qsqrt_is_sqrt.
+
+Close Scope Q_scope.
+
+(* where the root is defined the executable length satisfies the defining equation … *)
+Theorem C15_exec_length_spec : forall v : list Qc,
+  qc_nrm_defined v = true -> Qcmult (qc_nrm v) (qc_nrm v) = sumsq QcOps v.
+Proof. exact qc_nrm_spec. Qed.
+Print Assumptions C15_exec_length_spec.
+
+(* … so the squared-form theorems apply to what the correspondence shards execute *)
+Theorem C15_exec_set_length : forall (v : list Qc) (t : Qc),
+  qc_nrm_defined v = true -> qc_nrm v <> Q2Qc 0 ->
+  sumsq QcOps (set_cell (K:=QcOps) qc_is0 (qc_nrm v) t v) = Qcmult t t.
+Proof. exact exec_set_length. Qed.
+Print Assumptions C15_exec_set_length.
+
+(* histories of assignments stay inside the domain of the exact root *)
+Theorem C15_exec_defined_after_set : forall (v : list Qc) (t : Qc),
+  qc_nrm_defined v = true -> qc_nrm v <> Q2Qc 0 ->
+  qc_nrm_defined (set_cell (K:=QcOps) qc_is0 (qc_nrm v) t v) = true.
+Proof. exact exec_defined_after_set. Qed.
+Print Assumptions C15_exec_defined_after_set.
+
+(* the checker's single pass returns exactly the model's run_ops *)
+Theorem C15_checker_runs_model : forall (f : field QcOps) os,
+  snd (run_def f os) = run_ops (K:=QcOps) qc_nrm qc_is0 qc_close0 f os.
+Proof. exact run_def_snd. Qed.
+Print Assumptions C15_checker_runs_model.
+
+(* ===== non-vacuity ===== *)
+Example C15_hypotheses_nonvacuous :
+  Qcmult (qc_nrm w_v) (qc_nrm w_v) = sumsq QcOps w_v /\ qc_nrm w_v <> Q2Qc 0 /\
+  qc_is0 (qc_nrm w_v) = false /\ qc_close0 (qc_nrm w_v) = false.
+Proof. exact w_hyps. Qed.
+
+Example C15_set_nonvacuous :
+  qclist_eqb (set_cell (K:=QcOps) qc_is0 (qc_nrm w_v) (qc 10) w_v) (qcl [6; 8; 0]%Q) = true.
+Proof. exact w_set. Qed.
+
+Example C15_threshold_nonvacuous :
+  qclist_eqb (unit_cell (K:=QcOps) qc_close0 (qc_nrm w_tiny) w_tiny) (qcl [0; 0]%Q) = true /\
+  qclist_eqb (set_cell (K:=QcOps) qc_is0 (qc_nrm w_tiny) (qc 5) w_tiny) (qcl [3; 4]%Q) = true.
+Proof. exact w_tiny_orient. Qed.
+
+Example C15_history_nonvacuous :
+  match run_ops (K:=QcOps) qc_nrm qc_is0 qc_close0
+          (mkField (K:=QcOps) w_mesh 2 None [true; true] [qcl [3; 4]%Q; qcl [0; 0]%Q])
+          [OSetNorm (@NConst QcOps (qc 10)); @OUpdate QcOps [qcl [0; 2]%Q; qcl [5; 12]%Q]] with
+  | OK f => forallb2 qclist_eqb (f_arr f) [qcl [0; 2]%Q; qcl [5; 12]%Q]
+  | Err _ => false
+  end = true.
+Proof. exact w_history. Qed.
+
+Example C15_qsqrt_partial_nonvacuous : (qsqrt 2 = None /\ qsqrt (9 # 4) = Some (3 # 2))%Q.
+Proof. exact w_qsqrt_partial. Qed.
